@@ -58,6 +58,9 @@ func newTask(seed uint64, nops int) *taskState {
 	t.ue.KnasEnc, t.ue.KnasInt = key16(r.Bytes(16)), key16(r.Bytes(16))
 	t.ue.AmfUeNgapId = int64(r.Intn(1 << 30))
 	t.ue.AuthenticationSubs = tglib.GetAuthSubscription(hex.EncodeToString(r.Bytes(16)), hex.EncodeToString(r.Bytes(16)), "")
+	if rc := kernel.New(seed).Sub("cred"); rc.Bool() { // subscribers provisioned with OP only (OPc derived on use)
+		t.ue.AuthenticationSubs = tglib.GetAuthSubscription(hex.EncodeToString(rc.Bytes(16)), "", hex.EncodeToString(rc.Bytes(16)))
+	}
 	for i := 0; i < nops; i++ {
 		t.ops = append(t.ops, r.Intn(len(opNames)))
 		t.opSeed = append(t.opSeed, r.Uint64())
